@@ -1,6 +1,6 @@
 (** C25 (views part): proofs about the model C25_views_Model.v.  Everything is for ALL dimensions, offsets, strides and
     operation chains (lia-level arithmetic + induction over the operation list). *)
-From Coq Require Import List Arith ZArith Bool Lia ZifyBool.
+From Coq Require Import List Arith ZArith Bool Lia ZifyBool FinFun.
 Require Import C25_views_Model C25_views_Addr.
 Import ListNotations.
 
@@ -50,6 +50,13 @@ Lemma adapt_xor c v v' n t e :
 Proof.
   unfold adapt, flagfix. intros -> ->. destruct (v_neg v), (v_conj v), n, t; cbn;
     rewrite ?eneg_invol, ?econj_invol, ?econj_eneg, ?eneg_invol, ?econj_invol; auto.
+Qed.
+
+Lemma adapt_adapt_xor c r v n t e :
+  v_neg v = xorb (v_neg r) n -> v_conj v = xorb (v_conj r) t -> adapt c r (adapt c v e) = flagfix c n t e.
+Proof.
+  unfold adapt, flagfix. intros -> ->. destruct (v_neg r), (v_conj r), n, t; cbn [xorb];
+    repeat (rewrite ?econj_eneg, ?eneg_invol, ?econj_invol); auto.
 Qed.
 
 Lemma view_chain c W os v v' i j :
@@ -180,7 +187,7 @@ Lemma write_exact c W v i j e w i' j' :
   if (v_buf w =? v_buf v) && (vaddr w i' j' =? vaddr v i j) then adapt c w (adapt c v e) else vget c W w i' j'.
 Proof.
   intros [B A] R. unfold vget, vset. rewrite cell_setcell. specialize (A _ _ R).
-  destruct (v_buf w =? v_buf v) eqn:E1, (vaddr w i' j' =? vaddr v i j) eqn:E2; cbn; bd; auto; lia.
+  destruct (v_buf w =? v_buf v) eqn:E1, (vaddr w i' j' =? vaddr v i j) eqn:E2; cbn [andb]; bd; auto; lia.
 Qed.
 (** ... and within the written view itself exactly element (i,j) changes *)
 Lemma write_exact_self c W v i j e i' j' :
@@ -207,9 +214,331 @@ Proof.
   set (p := chain_index os r i j) in *.
   destruct (vaddr r a b =? vaddr r (fst p) (snd p)) eqn:E.
   - apply Nat.eqb_eq in E. destruct (I _ _ _ _ Rr R0 E) as [-> ->]. rewrite !Nat.eqb_refl. cbn.
-    rewrite (adapt_xor c r v _ _ _ N0 C0). rewrite <- (adapt_xor c r v _ _ (adapt c r (flagfix c (count_op is_neg os) (count_op is_tr os) e)) N0 C0).
-    rewrite (adapt_xor c r v _ _ _ N0 C0), adapt_invol.
-    unfold flagfix. destruct (count_op is_neg os), (count_op is_tr os); rewrite ?eneg_invol, ?econj_invol, ?econj_eneg, ?eneg_invol, ?econj_invol; auto.
+    apply adapt_adapt_xor; auto.
   - destruct ((a =? fst p) && (b =? snd p)) eqn:E3; auto. apply andb_true_iff in E3. destruct E3 as [X Y].
     apply Nat.eqb_eq in X, Y. subst. rewrite Nat.eqb_refl in E. discriminate.
 Qed.
+
+(** ** whole-view updates: elementwise scalar operations, assignment from another matrix, fill *)
+Lemma in_ixs nr nc i j : In (i, j) (ixs nr nc) <-> i < nr /\ j < nc.
+Proof.
+  unfold ixs. rewrite in_flat_map. split.
+  - intros (x & Hx & H). apply in_map_iff in H. destruct H as (y & E & Hy). inversion E; subst.
+    apply in_seq in Hx, Hy. lia.
+  - intros [A B]. exists j. split. apply in_seq; lia. apply in_map_iff. exists i. split; auto. apply in_seq; lia.
+Qed.
+Lemma nodup_app {A} (l1 l2 : list A) : NoDup l1 -> NoDup l2 -> (forall x, In x l1 -> ~ In x l2) -> NoDup (l1 ++ l2).
+Proof.
+  induction l1 as [|a l1 IH]; cbn; auto. intros N1 N2 D. inversion N1; subst. constructor.
+  - rewrite in_app_iff. intros [X|X]; auto. apply (D a); auto.
+  - apply IH; auto.
+Qed.
+Lemma nodup_ixs nr nc : NoDup (ixs nr nc).
+Proof.
+  unfold ixs. generalize 0 at 2. induction nc as [|nc IH]; intro s; cbn. constructor.
+  apply nodup_app; auto.
+  - apply FinFun.Injective_map_NoDup. intros x y E; inversion E; auto. apply seq_NoDup.
+  - intros [a b] H1 H2. apply in_map_iff in H1. destruct H1 as (y & E & _). inversion E; subst.
+    apply in_flat_map in H2. destruct H2 as (x & Hx & H). apply in_map_iff in H. destruct H as (z & E2 & _). inversion E2; subst.
+    apply in_seq in Hx. lia.
+Qed.
+
+Lemma vset_inb c W v i j e w : inb W w -> inb (vset c W v i j e) w.
+Proof.
+  unfold inb, vset, setcell; cbn [w_bufs]. intros [B A]. rewrite upd_length. split; auto.
+  intros x y R. rewrite nth_upd. specialize (A x y R). bd; auto. rewrite upd_length.
+  apply andb_true_iff in E. destruct E as [E _]. apply Nat.eqb_eq in E. rewrite <- E. auto.
+Qed.
+
+Definition pair_dec (x y : nat * nat) : {x = y} + {x <> y}.
+Proof. decide equality; apply Nat.eq_dec. Defined.
+
+Section Bulk.
+Variable c : bool.
+Variable v : view.
+Variable g : world -> nat -> nat -> elt.          (* the new value of element (i,j), possibly read from the current state *)
+Definition bulk (L : list (nat * nat)) (W : world) : world :=
+  fold_left (fun W' ij => vset c W' v (fst ij) (snd ij) (g W' (fst ij) (snd ij))) L W.
+(** g may read only element (i,j) of the view itself *)
+Hypothesis g_local : forall W W' i j, vget c W v i j = vget c W' v i j -> g W i j = g W' i j.
+
+Lemma bulk_spec L : forall W, inb W v -> injv v -> NoDup L -> (forall ij, In ij L -> inr v (fst ij) (snd ij)) ->
+  inb (bulk L W) v /\
+  (forall a b, inr v a b -> vget c (bulk L W) v a b = if in_dec pair_dec (a, b) L then g W a b else vget c W v a b) /\
+  (forall w i' j', (v_buf w <> v_buf v \/ forall ij, In ij L -> vaddr w i' j' <> vaddr v (fst ij) (snd ij)) ->
+                   vget c (bulk L W) w i' j' = vget c W w i' j').
+Proof.
+  induction L as [|[i j] L IH]; intros W B I N R; cbn [bulk fold_left].
+  { repeat split; auto; try apply B. all: intros; try (destruct (in_dec _ _ _) as [X|X]; [destruct X|]); auto. }
+  inversion N as [|x l N1 N2]; subst.
+  assert (Rij : inr v i j) by (apply (R (i, j)); left; auto).
+  set (W1 := vset c W v i j (g W i j)). cbn [fst snd]. fold W1.
+  destruct (IH W1 (vset_inb c W v i j _ v B) I N2 (fun ij H => R ij (or_intror H))) as (B' & G & O).
+  fold (bulk L W1). repeat split; try apply B'.
+  - intros a b Rab. rewrite (G a b Rab).
+    destruct (in_dec _ (a, b) L) as [X|X]; destruct (in_dec _ (a, b) ((i, j) :: L)) as [Y|Y].
+    + apply g_local. unfold W1. rewrite write_exact_self by auto.
+      destruct ((a =? i) && (b =? j)) eqn:E; auto. apply andb_true_iff in E. destruct E as [E1 E2].
+      apply Nat.eqb_eq in E1, E2. subst. contradiction.
+    + destruct Y. right; auto.
+    + destruct Y as [Y|Y]; [|contradiction]. inversion Y; subst. unfold W1. rewrite write_exact_self by auto.
+      rewrite !Nat.eqb_refl. reflexivity.
+    + unfold W1. rewrite write_exact_self by auto.
+      destruct ((a =? i) && (b =? j)) eqn:E; auto. apply andb_true_iff in E. destruct E as [E1 E2].
+      apply Nat.eqb_eq in E1, E2. subst. destruct Y. left; auto.
+  - intros w i' j' D. rewrite O.
+    + unfold W1. rewrite write_exact by auto. destruct D as [D|D].
+      * destruct (v_buf w =? v_buf v) eqn:E; auto. apply Nat.eqb_eq in E. contradiction.
+      * specialize (D (i, j) (or_introl eq_refl)). cbn in D.
+        destruct (vaddr w i' j' =? vaddr v i j) eqn:E; [apply Nat.eqb_eq in E; contradiction|]. rewrite andb_false_r. auto.
+    + destruct D as [D|D]; auto. right. intros ij H. apply D. right; auto.
+Qed.
+End Bulk.
+
+(** elementwise update through a view (scalar multiply, += matrix, -= matrix, += scalar on vectors ...): every viewed
+    element gets exactly its new value, every element any other handle sees outside the view is untouched *)
+Lemma vmap_exact c W v f : inb W v -> injv v ->
+  (forall a b, inr v a b -> vget c (vmap c W v f) v a b = f a b (vget c W v a b)) /\
+  (forall w i' j', (v_buf w <> v_buf v \/ forall i j, inr v i j -> vaddr w i' j' <> vaddr v i j) ->
+                   vget c (vmap c W v f) w i' j' = vget c W w i' j').
+Proof.
+  intros B I.
+  destruct (bulk_spec c v (fun W' i j => f i j (vget c W' v i j)) (fun W1 W2 i j E => f_equal (f i j) E)
+              (vixs v) W B I (nodup_ixs _ _) (fun ij H => proj1 (in_ixs _ _ (fst ij) (snd ij)) ltac:(destruct ij; exact H))) as (_ & G & O).
+  split.
+  - intros a b R. change (vmap c W v f) with (bulk c v (fun W' i j => f i j (vget c W' v i j)) (vixs v) W).
+    rewrite (G a b R). destruct (in_dec _ _ _) as [X|X]; auto. destruct X. apply in_ixs. exact R.
+  - intros w i' j' D. change (vmap c W v f) with (bulk c v (fun W' i j => f i j (vget c W' v i j)) (vixs v) W).
+    apply O. destruct D as [D|D]; auto. right. intros [i j] H. apply D. apply in_ixs in H. exact H.
+Qed.
+
+(** fillWith's shortcut: a helper that reports contiguous data occupies exactly the cells base .. base + nelt - 1,
+    element (i,j) at its column-major (row-major for row order) position *)
+Lemma contiguous_range v i j : wfv v -> contiguous v = true -> inr v i j ->
+  v_base v <= vaddr v i j < v_base v + v_nr v * v_nc v /\
+  vaddr v i j = v_base v + match v_h v with HFull true _ => i * v_nc v + j | HFull false _ => j * v_nr v + i | _ => i + j end.
+Proof.
+  unfold wfv, contiguous, inr, vaddr. destruct v as [b h nr nc ba ng cj sh ow]; cbn [v_h v_nr v_nc v_base].
+  intros W C [A B]. destruct h as [[|] ld| r | r s]; cbn [addr] in *; try discriminate.
+  - apply Nat.eqb_eq in C. subst. split; [|lia]. assert ((i + 1) * nc <= nr * nc) by (apply Nat.mul_le_mono_r; lia). lia.
+  - apply Nat.eqb_eq in C. subst. split; [|lia]. assert ((j + 1) * nr <= nc * nr) by (apply Nat.mul_le_mono_r; lia). lia.
+  - split; [|lia]. destruct W as [W|W]; [assert (i = 0) by lia | assert (j = 0) by lia]; subst; nia.
+Qed.
+
+(** ** packed storage index maps *)
+(** SymMat<M>: lowerIx(i,j), j < i < M, enumerates the strict lower triangle column by column *)
+Fixpoint tri_num (j : nat) : nat := match j with 0 => 0 | S k => k + tri_num k end.       (* 0+1+...+(j-1) *)
+Lemma tri_num_div j : j * (j - 1) / 2 = tri_num j.
+Proof.
+  assert (H : forall k, k * (k - 1) = 2 * tri_num k).
+  { induction k as [|k IH]; cbn [tri_num]; [reflexivity|]. destruct k; [reflexivity|]. cbn [Nat.sub] in *. rewrite Nat.sub_0_r in *. nia. }
+  rewrite H. rewrite Nat.mul_comm. apply Nat.div_mul. lia.
+Qed.
+Definition col_start (M j : nat) : nat := j * (M - 1) - tri_num j.
+Lemma tri_num_le j M : j <= M -> tri_num j <= j * (M - 1).
+Proof. induction j as [|j IH]; cbn [tri_num]; intros; [lia|]. specialize (IH ltac:(lia)). nia. Qed.
+Lemma col_start_succ M j : S j <= M -> col_start M (S j) = col_start M j + (M - 1 - j).
+Proof. unfold col_start. intro H. cbn [tri_num]. pose proof (tri_num_le j M ltac:(lia)). nia. Qed.
+Lemma col_start_mono M j j' : j <= j' -> j' <= M -> col_start M j <= col_start M j'.
+Proof. induction 1; intros; auto. rewrite col_start_succ by lia. specialize (IHle ltac:(lia)). lia. Qed.
+Lemma sym_lowerIx_eq M i j : j < i -> i < M -> sym_lowerIx M i j = col_start M j + (i - j - 1).
+Proof. unfold sym_lowerIx, col_start. intros. rewrite tri_num_div. pose proof (tri_num_le j M ltac:(lia)). lia. Qed.
+Lemma col_start_total M : col_start M (M - 1) = tri_num M.
+Proof.
+  destruct M as [|M]; [reflexivity|]. cbn [Nat.sub]. rewrite Nat.sub_0_r.
+  induction M as [|M IH]; [reflexivity|]. rewrite col_start_succ by lia.
+  assert (E : col_start (S (S M)) M = col_start (S M) M + M).
+  { unfold col_start. cbn [Nat.sub]. rewrite !Nat.sub_0_r. pose proof (tri_num_le M (S M) ltac:(lia)). cbn [Nat.sub] in *. rewrite Nat.sub_0_r in *. nia. }
+  rewrite E, IH. cbn [tri_num]. lia.
+Qed.
+Lemma sym_lowerIx_range M i j : j < i -> i < M -> sym_lowerIx M i j < tri_num M.
+Proof.
+  intros A B. rewrite sym_lowerIx_eq by auto. rewrite <- col_start_total.
+  pose proof (col_start_mono M (S j) (M - 1) ltac:(lia) ltac:(lia)) as Hm. rewrite col_start_succ in Hm by lia. lia.
+Qed.
+Lemma sym_lowerIx_injective M i j i' j' : j < i -> i < M -> j' < i' -> i' < M ->
+  sym_lowerIx M i j = sym_lowerIx M i' j' -> i = i' /\ j = j'.
+Proof.
+  intros A B A' B' E. rewrite !sym_lowerIx_eq in E by auto.
+  destruct (Nat.lt_trichotomy j j') as [L|[L|L]]; [|subst; lia|]; exfalso.
+  - pose proof (col_start_mono M (S j) j' ltac:(lia) ltac:(lia)) as Hm. rewrite col_start_succ in Hm by lia. lia.
+  - pose proof (col_start_mono M (S j') j ltac:(lia) ltac:(lia)) as Hm. rewrite col_start_succ in Hm by lia. lia.
+Qed.
+(** onto: every position below M(M-1)/2 is the index of some (i,j) *)
+Lemma sym_lowerIx_surjective M k : k < tri_num M -> exists i j, j < i /\ i < M /\ sym_lowerIx M i j = k.
+Proof.
+  intro H. rewrite <- col_start_total in H.
+  assert (G : forall n, n <= M - 1 -> k < col_start M n -> exists i j, j < i /\ i < M /\ sym_lowerIx M i j = k).
+  { induction n as [|n IH]; intros Hn Hk. { unfold col_start in Hk. cbn in Hk. lia. }
+    destruct (Nat.lt_ge_cases k (col_start M n)) as [L|L]; [apply IH; lia|].
+    rewrite col_start_succ in Hk by lia. exists (n + 1 + (k - col_start M n)), n. repeat split; try lia.
+    rewrite sym_lowerIx_eq by lia. lia. }
+  apply (G (M - 1)); auto.
+Qed.
+(** whole SymMat storage: diagonal first, then the lower triangle: a bijection between {(i,j) | j <= i < M} and [0, M(M+1)/2) *)
+Lemma sym_index_range M i j : j <= i -> i < M -> sym_index M i j < M + tri_num M.
+Proof. unfold sym_index. intros. bd; [lia|]. apply Nat.eqb_neq in E. pose proof (sym_lowerIx_range M i j ltac:(lia) ltac:(lia)). lia. Qed.
+Lemma sym_index_injective M i j i' j' : j <= i -> i < M -> j' <= i' -> i' < M ->
+  sym_index M i j = sym_index M i' j' -> i = i' /\ j = j'.
+Proof.
+  unfold sym_index. intros A B A' B' E. destruct (Nat.eqb_spec i j), (Nat.eqb_spec i' j'); try lia.
+  apply (sym_lowerIx_injective M); lia.
+Qed.
+Lemma sym_index_surjective M k : k < M + tri_num M -> exists i j, j <= i /\ i < M /\ sym_index M i j = k.
+Proof.
+  intro H. destruct (Nat.lt_ge_cases k M) as [L|L].
+  - exists k, k. unfold sym_index. rewrite Nat.eqb_refl. lia.
+  - destruct (sym_lowerIx_surjective M (k - M) ltac:(lia)) as (i & j & A & B & E). exists i, j. unfold sym_index.
+    destruct (i =? j) eqn:E1; [apply Nat.eqb_eq in E1; lia|]. lia.
+Qed.
+Lemma tri_num_closed M : 2 * (M + tri_num M) = M * (M + 1).
+Proof. induction M as [|M IH]; cbn [tri_num]; nia. Qed.
+
+(** TriInFullUpperHelper: the stored elements (i <= j < minmn) of a triangular/symmetric/Hermitian matrix kept in the upper
+    triangle of a full square never share a cell, and getAnyElt_ rebuilds the unstored half as documented *)
+Lemma tri_addr_injective t i j i' j' : t_minmn t <= t_ld t ->
+  tri_stored t i j = true -> tri_stored t i' j' = true -> tri_addr t i j = tri_addr t i' j' -> i = i' /\ j = j'.
+Proof.
+  unfold tri_stored, tri_addr. intros L S S' E. destruct (t_rowOrder t).
+  - destruct (Nat.lt_trichotomy i i') as [X|[X|X]]; [|subst; lia|]; exfalso.
+    + assert ((i + 1) * t_ld t <= i' * t_ld t) by (apply Nat.mul_le_mono_r; lia). lia.
+    + assert ((i' + 1) * t_ld t <= i * t_ld t) by (apply Nat.mul_le_mono_r; lia). lia.
+  - destruct (Nat.lt_trichotomy j j') as [X|[X|X]]; [|subst; lia|]; exfalso.
+    + assert ((j + 1) * t_ld t <= j' * t_ld t) by (apply Nat.mul_le_mono_r; lia). lia.
+    + assert ((j' + 1) * t_ld t <= j * t_ld t) by (apply Nat.mul_le_mono_r; lia). lia.
+Qed.
+Lemma tri_any_stored c k t mem i j : tri_stored t i j = true -> tri_any c k t mem i j = nth (tri_addr t i j) mem [].
+Proof. unfold tri_any. intros ->. rewrite orb_true_r. reflexivity. Qed.
+Lemma tri_any_triangular_zero c k t mem i j : t_triangular t = true -> j < i -> tri_any c k t mem i j = ezero k.
+Proof. unfold tri_any, tri_stored. intros -> L. bd; auto; lia. Qed.
+Lemma tri_any_symmetric c k t mem i j :
+  t_triangular t = false -> t_hermitian t = false -> t_skew t = false -> i < t_minmn t -> j < t_minmn t ->
+  tri_any c k t mem i j = tri_any c k t mem j i.
+Proof.
+  unfold tri_any, tri_stored. intros -> -> -> A B. cbn [orb].
+  destruct (Nat.lt_trichotomy i j) as [X|[X|X]]; [|subst; reflexivity|]; bd; auto; lia.
+Qed.
+Lemma tri_any_hermitian c k t mem i j :
+  t_triangular t = false -> t_hermitian t = true -> t_skew t = false -> i < t_minmn t -> j < t_minmn t -> i <> j ->
+  tri_any c k t mem i j = econj c (tri_any c k t mem j i).
+Proof.
+  unfold tri_any, tri_stored. intros -> -> -> A B N. cbn [orb].
+  destruct (Nat.lt_trichotomy i j) as [X|[X|X]]; [|lia|]; bd; rewrite ?econj_invol; auto; lia.
+Qed.
+Lemma tri_any_skew c k t mem i j :
+  t_triangular t = false -> t_hermitian t = false -> t_skew t = true -> i < t_minmn t -> j < t_minmn t -> i <> j ->
+  tri_any c k t mem i j = eneg (tri_any c k t mem j i).
+Proof.
+  unfold tri_any, tri_stored. intros -> -> -> A B N. cbn [orb].
+  destruct (Nat.lt_trichotomy i j) as [X|[X|X]]; [|lia|]; bd; rewrite ?eneg_invol; auto; lia.
+Qed.
+
+(** ** scalar conventions (DESIGN 5 C25): adding a scalar to a Matrix_ handle touches the diagonal only (scalar * identity),
+    adding it to a Vector_/RowVector_ handle touches every element *)
+Lemma diag_view_step v : step_view ODiag v = Some (diag_view v).
+Proof. reflexivity. Qed.
+Lemma scalar_add_matrix c W v e i j :
+  v_shape v = SMat -> wfv v -> injv v -> inb W v -> inr v i j ->
+  vget c (vscalar_add c W v e) v i j = if i =? j then eadd (vget c W v i j) e else vget c W v i j.
+Proof.
+  intros S Wf I B R. unfold vscalar_add. rewrite S. set (d := diag_view v).
+  pose proof (diag_view_step v) as Hd. fold d in Hd.
+  assert (Wd : wfv d) by exact (step_view_wf ODiag v d Wf Hd).
+  assert (Id : injv d) by exact (step_view_inj ODiag v d Wf I Hd).
+  assert (Ad : forall k, inr d k 0 -> inr v k k /\ vaddr d k 0 = vaddr v k k /\ v_buf d = v_buf v).
+  { intros k Rk. exact (step_view_addr ODiag v d k 0 Wf Hd Rk). }
+  assert (Dd : v_nr d = Nat.min (v_nr v) (v_nc v) /\ v_nc d = 1) by (apply (step_view_dims ODiag v d Hd)).
+  assert (Bd : inb W d). { destruct B as [B1 B2]. split. replace (v_buf d) with (v_buf v) by reflexivity. auto.
+    intros x y [X Y]. assert (y = 0) by lia. subst. destruct (Ad x (conj X Y)) as (Rv & Av & Bv). rewrite Av, Bv. auto. }
+  destruct (vmap_exact c W d (fun _ _ x => eadd x e) Bd Id) as [G O].
+  destruct R as [Ri Rj]. destruct (Nat.eqb_spec i j) as [E|E].
+  - subst j. assert (Rk : inr d i 0) by (split; lia). specialize (G i 0 Rk). destruct (Ad i Rk) as (_ & Av & Bv).
+    unfold vget in *. rewrite <- Av, <- Bv. exact G.
+  - apply O. right. intros x y [X Y] Eq. assert (y = 0) by lia. subst. destruct (Ad x (conj X Y)) as (Rv & Av & _).
+    rewrite Av in Eq. destruct (I i j x x (conj Ri Rj) Rv Eq). lia.
+Qed.
+Lemma scalar_add_vector c W v e i j :
+  v_shape v <> SMat -> injv v -> inb W v -> inr v i j ->
+  vget c (vscalar_add c W v e) v i j = eadd (vget c W v i j) e.
+Proof.
+  intros S I B R. unfold vscalar_add. destruct (v_shape v); try congruence; apply (proj1 (vmap_exact c W v (fun _ _ x => eadd x e) B I)); auto.
+Qed.
+(** *= s, += M, -= M through any view: every viewed element gets s * old, old + M(i,j), old - M(i,j) *)
+Lemma scale_through_view c W v s i j : injv v -> inb W v -> inr v i j ->
+  vget c (vmap c W v (fun _ _ x => escale s x)) v i j = escale s (vget c W v i j).
+Proof. intros I B R. apply (proj1 (vmap_exact c W v (fun _ _ x => escale s x) B I)); auto. Qed.
+
+(** ** sum / norm-style folds over a view are folds over the elements of the root matrix the chain denotes *)
+Lemma fold_left_ext_in {A B} (f g : A -> B -> A) l : (forall x, In x l -> forall a, f a x = g a x) -> forall a, fold_left f l a = fold_left g l a.
+Proof. induction l as [|x l IH]; cbn; intros H a; auto. rewrite H by auto. apply IH. intros; apply H; auto. Qed.
+Lemma vsum_denotes c k W os r v : wfv r -> run_ops os r = Some v ->
+  vsum c k W v = fold_left (fun s ij => eadd s (flagfix c (count_op is_neg os) (count_op is_tr os)
+                     (vget c W r (fst (chain_index os r (fst ij) (snd ij))) (snd (chain_index os r (fst ij) (snd ij))))))
+                           (vixs v) (ezero k).
+Proof.
+  intros Wf H. unfold vsum. apply fold_left_ext_in. intros [i j] Hin a. cbn [fst snd]. f_equal.
+  apply view_chain; auto. apply in_ixs. exact Hin.
+Qed.
+Lemma vnormsqr_denotes c W os r v : wfv r -> run_ops os r = Some v ->
+  vnormsqr c W v = fold_left (fun s ij => Z.add s (esqr (flagfix c (count_op is_neg os) (count_op is_tr os)
+                     (vget c W r (fst (chain_index os r (fst ij) (snd ij))) (snd (chain_index os r (fst ij) (snd ij)))))))
+                           (vixs v) 0%Z.
+Proof.
+  intros Wf H. unfold vnormsqr. apply fold_left_ext_in. intros [i j] Hin a. cbn [fst snd]. do 2 f_equal.
+  apply view_chain; auto. apply in_ixs. exact Hin.
+Qed.
+
+(** ** owners.  Matrix_(m,n) / Vector_(m) / RowVector_(n) and every resize of an owner that has a FULL helper give a packed,
+    well-formed, injectively addressed block ... *)
+Definition new_view (b : nat) (sh : shape) (m n : nat) : view :=
+  let ro := (m =? 1) && negb (n =? 1) in
+  mkView b (match sh with SMat => HFull ro (if ro then n else m) | SVec => HVecC false | SRow => HVecC true end) m n 0 false false sh true.
+Lemma new_owner_ok b sh m n : size_ok sh m n = true -> wfv (new_view b sh m n) /\ injv (new_view b sh m n).
+Proof.
+  unfold size_ok, new_view, wfv. destruct sh; cbn [v_h v_nr v_nc]; intro S.
+  - split; auto. apply packed_full_inj.
+  - apply Nat.eqb_eq in S. subst. split; [lia|]. apply packed_vec_inj. lia.
+  - apply Nat.eqb_eq in S. subst. split; [lia|]. apply packed_vec_inj. lia.
+Qed.
+Lemma resize_full_owner_ok W h v m n keep W1 v1 ro ld :
+  v_h v = HFull ro ld -> resize W h v m n keep = Some (W1, v1) -> (m, n) <> (v_nr v, v_nc v) ->
+  v_nr v1 = m /\ v_nc v1 = n /\ wfv v1 /\ injv v1.
+Proof.
+  unfold resize. intros Hh H D. destruct ((m =? v_nr v) && (n =? v_nc v)) eqn:E.
+  { apply andb_true_iff in E. destruct E as [E1 E2]. apply Nat.eqb_eq in E1, E2. subst. congruence. }
+  bd; try discriminate. inversion H; subst. rewrite Hh. cbn [resize_helper].
+  split; [reflexivity|]. split; [reflexivity|]. split; [destruct ro; exact Logic.I|].
+  destruct ro; [apply (packed_full_inj _ true m n) | apply (packed_full_inj _ false m n)].
+Qed.
+(** ... but an owner that carries a VECTOR helper (a Matrix_ deep-copied from a one-column or one-row block: createDeepCopy_
+    of a vector helper is a vector helper) keeps it when it is given a two-dimensional size: REFUTED.  Witness:
+    Matrix A(3,3); Matrix B = A(0,1,3,1); B = T with T = [11 12; 13 14]  ==>  B reads [11 13; 13 12]. *)
+Definition run_w (c : bool) (k : nat) (ops : list wop) : world := fold_left (fun W o => fst (wstep_total c k W o)) ops empty_world.
+Definition refut_ops : list wop :=
+  [WNew SMat 3 3 1; WView 0 (OBlock 0 1 3 1); WCopy 1 false; WAssign 2 2 2 [[11]; [12]; [13]; [14]]]%Z.
+Lemma assign_to_copied_column_block_refuted :
+  exists v, getview (run_w false 1 refut_ops) 2 = Some v /\ v_owner v = true /\ v_nr v = 2 /\ v_nc v = 2 /\
+            velems false (run_w false 1 refut_ops) v = [[11]; [13]; [13]; [12]]%Z /\
+            velems false (run_w false 1 refut_ops) v <> [[11]; [12]; [13]; [14]]%Z /\ ~ wfv v.
+Proof.
+  eexists. split; [vm_compute; reflexivity|]. split; [reflexivity|]. split; [reflexivity|]. split; [reflexivity|].
+  split; [vm_compute; reflexivity|]. split; [vm_compute; discriminate|]. unfold wfv; cbn. lia.
+Qed.
+
+(** ** non-vacuity: the hypotheses of the theorems above hold on concrete, non-trivial inputs *)
+Definition ex_root : view := new_view 0 SMat 4 5.
+Definition ex_ops : list vop := [OBlock 1 1 3 4; OTr; ONeg; ORow 2; OSub 1 2; OTr].
+Example ex_chain_runs : exists v, run_ops ex_ops ex_root = Some v /\ v_nr v = 2 /\ v_nc v = 1 /\ v_shape v = SVec /\
+  chain_index ex_ops ex_root 1 0 = (3, 3) /\ count_op is_neg ex_ops = true /\ count_op is_tr ex_ops = false.
+Proof. vm_compute. eexists. repeat split. Qed.
+Example ex_root_ok : wfv ex_root /\ injv ex_root.
+Proof. apply new_owner_ok. reflexivity. Qed.
+Example ex_world_inb : let W := run_w false 1 [WNew SMat 4 5 1%Z] in getview W 0 = Some ex_root /\ inb W ex_root.
+Proof.
+  cbv zeta. split; [vm_compute; reflexivity|]. split; [vm_compute; lia|].
+  intros i j [A B]. change (v_nr ex_root) with 4 in A. change (v_nc ex_root) with 5 in B.
+  assert (L : length (nth (v_buf ex_root) (w_bufs (run_w false 1 [WNew SMat 4 5 1%Z])) []) = 20) by (vm_compute; reflexivity).
+  rewrite L. unfold vaddr, ex_root, new_view; cbn. lia.
+Qed.
+Example ex_sym_index : map (fun ij => sym_index 4 (fst ij) (snd ij)) [(0,0);(1,1);(2,2);(3,3);(1,0);(2,0);(3,0);(2,1);(3,1);(3,2)] = seq 0 10.
+Proof. reflexivity. Qed.
